@@ -143,7 +143,7 @@ class Checker:
     def finish(self):
         wall = time.time() - self.t0
         if run.RETRIES: self.extra['runs_repeated_after_timeout'] = [list(x) for x in run.RETRIES[:20]]      # see run.run_impl (rusty-leveldb iterator spin)
-        self.extra['rotations'] = dict(runs_as_unprivileged_user=run.ROT['as_user'], runs_after_prior_run_in_dump_folder=run.ROT['prior'], unprivileged_user_available=(run._DROP.get(65534)))
+        self.extra['rotations'] = dict(runs_as_unprivileged_user=run.ROT['as_user'], runs_after_prior_run_in_dump_folder=run.ROT['prior'], runs_below_foreign_client_path_names=run.ROT['path_name'], unprivileged_user_available=(run._DROP.get(65534)))
         failed_obl = [(n, d) for n, ok, d in self.obligations if not ok]
         lines = []
         for fid, text in self.known: lines.append('KNOWN-FINDING: property=%s %s' % (self.prop, text))
